@@ -3,6 +3,8 @@ import itertools
 import vlib
 from vlib import g_str, g_list
 
+COQ_DEPS = ['Group/GroupName.vo']
+
 NAMES = ['C', 'H', 'O', 'C[d]', 'C[.]', 'CO', 'Pt']
 EXTRA = ['N[A]', 'Cb', 'C2H', 'a b', '[Ru]', 'ét', '1a', 'H2', '-', 'C[t]', 'x9y']
 CENTRES = ['C', 'O', 'C[d]', 'CO', 'Pt', '', 'N[A]', 'C1']
